@@ -68,8 +68,147 @@ def templates(tier):
     return T
 
 
+WA_DECLS = """
+type vtP :struct {
+	x, y: i32
+}
+
+type vtQ :struct {
+	p: vtP
+	k: i64
+}
+
+func vtP.Sum => i32 { return this.x + this.y }
+
+func vtP.Scale(f: i32) { this.x *= f; this.y *= f }
+
+type vtShape :interface {
+	Area() => i32
+}
+
+type vtRect :struct {
+	w, h: i32
+}
+
+type vtSq :struct {
+	s: i32
+}
+
+func vtRect.Area => i32 { return this.w * this.h }
+
+func vtSq.Area => i32 { return this.s * this.s }
+
+func vtFact(n: i32) => i32 {
+	if n <= 1 {
+		return 1
+	}
+	return n * vtFact(n-1)
+}
+
+func vtDivMod(a, b: i32) => (q, r: i32) {
+	return a / b, a % b
+}
+
+func vtApply(f: func(i32) => i32, v: i32) => i32 { return f(f(v)) }
+
+func vtDefer(a: i32) => (r: i32) {
+	defer func() { r += a }()
+	r = a * 2
+	return r
+}
+"""
+
+GO_DECLS = """
+type vtP struct{ x, y int32 }
+
+type vtQ struct {
+	p vtP
+	k int64
+}
+
+func (this *vtP) Sum() int32 { return this.x + this.y }
+
+func (this *vtP) Scale(f int32) { this.x *= f; this.y *= f }
+
+type vtShape interface{ Area() int32 }
+
+type vtRect struct{ w, h int32 }
+
+type vtSq struct{ s int32 }
+
+func (this *vtRect) Area() int32 { return this.w * this.h }
+
+func (this *vtSq) Area() int32 { return this.s * this.s }
+
+func vtFact(n int32) int32 {
+	if n <= 1 {
+		return 1
+	}
+	return n * vtFact(n-1)
+}
+
+func vtDivMod(a, b int32) (q, r int32) { return a / b, a % b }
+
+func vtApply(f func(int32) int32, v int32) int32 { return f(f(v)) }
+
+func vtDefer(a int32) (r int32) {
+	defer func() { r += a }()
+	r = a * 2
+	return r
+}
+"""
+
+
+def aggregate_templates():
+    """aggregates, strings, closures, methods, interfaces, defer: each wrapped so that parameters and the result are scalars"""
+    T = []
+    def both(name, params, res, body, assume=(), go=None):
+        T.append((name, params, res, body, go if go is not None else body, list(assume)))
+    xy = [("x", "i32"), ("y", "i32")]
+    xyz = [("x", "i32"), ("y", "i32"), ("z", "i32")]
+    both("arr_swap", xy, "i32", "a := [2]i32{x, y}\n\ta = [2]i32{a[1], a[0]}\n\treturn a[0]*3 + a[1]", go="a := [2]int32{x, y}\n\ta = [2]int32{a[1], a[0]}\n\treturn a[0]*3 + a[1]")
+    both("arr_rotate", xyz, "i32", "a := [3]i32{x, y, z}\n\ta = [3]i32{a[2], a[0], a[1]}\n\treturn a[0]*5 + a[1]*3 + a[2]", go="a := [3]int32{x, y, z}\n\ta = [3]int32{a[2], a[0], a[1]}\n\treturn a[0]*5 + a[1]*3 + a[2]")
+    both("arr_partial_literal", xy, "i32", "a := [4]i32{x, y, x, y}\n\ta = [4]i32{y, x}\n\treturn a[0]*7 + a[1]*5 + a[2]*3 + a[3]", go="a := [4]int32{x, y, x, y}\n\ta = [4]int32{y, x}\n\treturn a[0]*7 + a[1]*5 + a[2]*3 + a[3]")
+    both("arr_copy_is_value", xy, "i32", "a := [2]i32{x, y}\n\tb := a\n\tb[0] = 9\n\treturn a[0]*3 + b[0] + b[1]", go="a := [2]int32{x, y}\n\tb := a\n\tb[0] = 9\n\treturn a[0]*3 + b[0] + b[1]")
+    both("arr_of_struct_swap", xy, "i32", "a := [2]vtP{{x, y}, {y, 7}}\n\ta = [2]vtP{a[1], a[0]}\n\treturn a[0].x*7 + a[0].y*5 + a[1].x*3 + a[1].y")
+    both("arr_index_var", [("x", "i32"), ("i", "u32")], "i32", "a := [4]i32{x, x + 1, x * 2, 5}\n\treturn a[i%4]", go="a := [4]int32{x, x + 1, x * 2, 5}\n\treturn a[i%4]")
+    both("arr_range_sum", xyz, "i32", "a := [3]i32{x, y, z}\n\ts := i32(0)\n\tfor i, v := range a {\n\t\ts += v * i32(i+1)\n\t}\n\treturn s", go="a := [3]int32{x, y, z}\n\ts := int32(0)\n\tfor i, v := range a {\n\t\ts += v * int32(i+1)\n\t}\n\treturn s")
+    both("struct_swap_fields", xy, "i32", "p := vtP{x, y}\n\tp = vtP{p.y, p.x}\n\treturn p.x*3 + p.y")
+    both("struct_keyed_partial", xy, "i32", "p := vtP{x, y}\n\tp = vtP{y: p.x}\n\treturn p.x*3 + p.y")
+    both("struct_nested", [("x", "i32"), ("k", "i64")], "i64", "q := vtQ{vtP{x, x + 1}, k}\n\tr := q\n\tr.p.x = 4\n\treturn i64(q.p.x)*3 + i64(r.p.x) + r.k + i64(q.p.y)", go="q := vtQ{vtP{x, x + 1}, k}\n\tr := q\n\tr.p.x = 4\n\treturn int64(q.p.x)*3 + int64(r.p.x) + r.k + int64(q.p.y)")
+    both("struct_pointer_alias", xy, "i32", "p := &vtP{x, y}\n\tq := p\n\tq.x += 5\n\treturn p.x*3 + q.y")
+    both("method_value_and_pointer", xy, "i32", "p := vtP{x, y}\n\tp.Scale(3)\n\treturn p.Sum()")
+    both("iface_dispatch", [("x", "i32"), ("y", "i32"), ("sel", "bool")], "i32", "s: vtShape\n\tif sel {\n\t\ts = &vtRect{x, y}\n\t} else {\n\t\ts = &vtSq{x}\n\t}\n\treturn s.Area()", go="var s vtShape\n\tif sel {\n\t\ts = &vtRect{x, y}\n\t} else {\n\t\ts = &vtSq{x}\n\t}\n\treturn s.Area()")
+    both("iface_type_switch", [("x", "i32"), ("sel", "bool")], "i32", "s: vtShape = &vtSq{x}\n\tif sel {\n\t\ts = &vtRect{x, 2}\n\t}\n\tswitch v := s.(type) {\n\tcase *vtRect:\n\t\treturn v.w + 100\n\tcase *vtSq:\n\t\treturn v.s + 200\n\t}\n\treturn 0", go="var s vtShape = &vtSq{x}\n\tif sel {\n\t\ts = &vtRect{x, 2}\n\t}\n\tswitch v := s.(type) {\n\tcase *vtRect:\n\t\treturn v.w + 100\n\tcase *vtSq:\n\t\treturn v.s + 200\n\t}\n\treturn 0")
+    both("slice_append_alias", xyz, "i32", "s := []i32{x, y}\n\tt := append(s, z)\n\tt[0] = 1\n\treturn s[0]*7 + t[0]*5 + t[2]*3 + i32(len(t)) + i32(len(s))", go="s := []int32{x, y}\n\tt := append(s, z)\n\tt[0] = 1\n\treturn s[0]*7 + t[0]*5 + t[2]*3 + int32(len(t)) + int32(len(s))")
+    both("slice_of_array_shares", xyz, "i32", "a := [3]i32{x, y, z}\n\ts := a[1:]\n\ts[0] = 8\n\treturn a[1]*5 + s[1] + i32(len(s))*100 + i32(cap(s))*1000", go="a := [3]int32{x, y, z}\n\ts := a[1:]\n\ts[0] = 8\n\treturn a[1]*5 + s[1] + int32(len(s))*100 + int32(cap(s))*1000")
+    both("slice_copy_overlap", xyz, "i32", "s := []i32{x, y, z, 4}\n\tn := copy(s[1:], s)\n\treturn s[0]*7 + s[1]*5 + s[2]*3 + s[3] + i32(n)*1000", go="s := []int32{x, y, z, 4}\n\tn := copy(s[1:], s)\n\treturn s[0]*7 + s[1]*5 + s[2]*3 + s[3] + int32(n)*1000")
+    both("slice_make_zero", [("x", "i32"), ("i", "u32")], "i32", "s := make([]i32, 3)\n\ts[i%3] = x\n\treturn s[0]*5 + s[1]*3 + s[2]", go="s := make([]int32, 3)\n\ts[i%3] = x\n\treturn s[0]*5 + s[1]*3 + s[2]")
+    both("closure_capture_by_ref", xy, "i32", "c := x\n\tf := func(d: i32) => i32 {\n\t\tc += d\n\t\treturn c\n\t}\n\tf(y)\n\treturn f(1)*3 + c", go="c := x\n\tf := func(d int32) int32 {\n\t\tc += d\n\t\treturn c\n\t}\n\tf(y)\n\treturn f(1)*3 + c")
+    both("closure_as_argument", xy, "i32", "return vtApply(func(v: i32) => i32 { return v*y + 1 }, x)", go="return vtApply(func(v int32) int32 { return v*y + 1 }, x)")
+    both("multi_return", xy, "i32", "q, r := vtDivMod(x, y)\n\treturn q*3 + r", assume=["y != 0", "!(x == -1<<31 && y == -1)"])
+    both("recursion_fact", [("n", "i32")], "i32", "return vtFact(n)", assume=["n <= 6"])
+    both("defer_modifies_result", [("x", "i32")], "i32", "return vtDefer(x)")
+    both("for_break_continue", [("n", "i32")], "i32", "s := i32(0)\n\tfor i := i32(0); i < 8; i++ {\n\t\tif i == n {\n\t\t\tbreak\n\t\t}\n\t\tif i%2 == 0 {\n\t\t\tcontinue\n\t\t}\n\t\ts += i\n\t}\n\treturn s", go="s := int32(0)\n\tfor i := int32(0); i < 8; i++ {\n\t\tif i == n {\n\t\t\tbreak\n\t\t}\n\t\tif i%2 == 0 {\n\t\t\tcontinue\n\t\t}\n\t\ts += i\n\t}\n\treturn s")
+    both("switch_multi_value", [("a", "u32")], "u32", "r := u32(0)\n\tswitch a % 5 {\n\tcase 0, 3:\n\t\tr += 1\n\tcase 1:\n\t\tr += 10\n\tcase 2:\n\t\tr += 100\n\tdefault:\n\t\tr += 1000\n\t}\n\treturn r", go="r := uint32(0)\n\tswitch a % 5 {\n\tcase 0, 3:\n\t\tr += 1\n\tcase 1:\n\t\tr += 10\n\tcase 2:\n\t\tr += 100\n\tdefault:\n\t\tr += 1000\n\t}\n\treturn r")
+    # strings and runes
+    both("rune_to_string_len", [("r", "i32")], "i32", "return i32(len(string(rune(r))))", go="return int32(len(string(rune(r))))")
+    both("rune_to_string_bytes", [("r", "i32")], "u32", "s := string(rune(r))\n\tv := u32(0)\n\tfor i := 0; i < len(s); i++ {\n\t\tv = v<<8 | u32(s[i])\n\t}\n\treturn v", go="s := string(rune(r))\n\tv := uint32(0)\n\tfor i := 0; i < len(s); i++ {\n\t\tv = v<<8 | uint32(s[i])\n\t}\n\treturn v")
+    both("runes_to_string_len", [("r", "i32"), ("q", "i32")], "i32", "return i32(len(string([]rune{'a', rune(r), rune(q)})))", go="return int32(len(string([]rune{'a', rune(r), rune(q)})))")
+    both("string_concat_index", [("a", "u8"), ("b", "u8"), ("i", "u32")], "u32", "s := string([]byte{a, 'x'}) + string([]byte{b})\n\treturn u32(s[i%3]) + u32(len(s))*1000", go="s := string([]byte{a, 'x'}) + string([]byte{b})\n\treturn uint32(s[i%3]) + uint32(len(s))*1000")
+    both("string_compare", [("a", "u8"), ("b", "u8")], "u32", "s := string([]byte{a, 'm'})\n\tt := string([]byte{b, 'm'})\n\tr := u32(0)\n\tif s < t {\n\t\tr += 1\n\t}\n\tif s == t {\n\t\tr += 10\n\t}\n\tif s >= \"mm\" {\n\t\tr += 100\n\t}\n\treturn r", go="s := string([]byte{a, 'm'})\n\tt := string([]byte{b, 'm'})\n\tr := uint32(0)\n\tif s < t {\n\t\tr += 1\n\t}\n\tif s == t {\n\t\tr += 10\n\t}\n\tif s >= \"mm\" {\n\t\tr += 100\n\t}\n\treturn r")
+    both("string_range_runes", [("a", "u8"), ("b", "u8")], "u32", "s := string([]byte{a, b, 'z'})\n\tv := u32(0)\n\tfor i, r := range s {\n\t\tv = v*31 + u32(r) + u32(i)\n\t}\n\treturn v", go="s := string([]byte{a, b, 'z'})\n\tv := uint32(0)\n\tfor i, r := range s {\n\t\tv = v*31 + uint32(r) + uint32(i)\n\t}\n\treturn v")
+    both("bytes_of_string_is_copy", [("a", "u8")], "u32", "s := string([]byte{a, 'k'})\n\tb := []byte(s)\n\tb[0] = 'q'\n\treturn u32(s[0])*256 + u32(b[0])", go="s := string([]byte{a, 'k'})\n\tb := []byte(s)\n\tb[0] = 'q'\n\treturn uint32(s[0])*256 + uint32(b[0])")
+    return T
+
+
 def gen(tier):
-    return gen_from(templates(tier), "c01")
+    import os
+    T = templates(tier) + aggregate_templates()
+    only = os.environ.get("VERIF_ONLY")  # developer aid: restrict to templates whose name contains one of these
+    if only:
+        T = [t for t in T if any(o in t[0] for o in only.split(","))]
+    return gen_from(T, "c01", wa_extra=WA_DECLS, go_extra=GO_DECLS)
 
 
 def gen_from(T, tag, wa_imports=(), go_imports=(), wa_extra="", go_extra="", run_start=False):
